@@ -497,6 +497,47 @@ class Program:
                         return True
         return False
 
+    def memo_bound(self, mod: "Module", e: ast.expr, _depth: int = 0):
+        """How many entries the memoiser denoted by expression `e` (a decorator, or the callee of `name = memo(func)`) keeps:
+        None = unbounded, an int, or "unknown" (not a memoiser this analysis can read)."""
+        if _depth > 4:
+            return "unknown"
+        if isinstance(e, ast.Call):
+            inner = self.resolve_expr_name(mod, e.func)
+            if inner == "functools.lru_cache":
+                size: ast.expr | None = e.args[0] if e.args else next((k.value for k in e.keywords if k.arg == "maxsize"), None)
+                if size is None:
+                    return 128 if not (e.args and isinstance(e.args[0], (ast.Name, ast.Attribute, ast.Lambda))) else "unknown"
+                if isinstance(size, ast.Constant) and (size.value is None or isinstance(size.value, int)):
+                    return size.value
+                if isinstance(size, ast.Name) and isinstance(mod.assigns.get(size.id), ast.Constant):
+                    v = mod.assigns[size.id].value
+                    return v if v is None or isinstance(v, int) else "unknown"
+                return "unknown"
+            if inner and inner.startswith("typelib."):
+                # a package-level factory called with arguments: compat.lru_cache(maxsize=...) is functools' under a package name
+                return "unknown"
+            return "unknown"
+        name = self.resolve_expr_name(mod, e)
+        if name == "functools.cache":
+            return None
+        if name == "functools.lru_cache":
+            return 128  # applied bare: the default size
+        if name and name.startswith("typelib."):
+            mn, _, fn = name.rpartition(".")
+            m2 = self.modules.get(mn)
+            if m2 is None:
+                return "unknown"
+            for n in ast.walk(m2.tree):
+                if isinstance(n, ast.Assign) and len(n.targets) == 1 and isinstance(n.targets[0], ast.Name) and n.targets[0].id == fn:
+                    return self.memo_bound(m2, n.value, _depth + 1)
+                if isinstance(n, ast.FunctionDef) and n.name == fn and not n.decorator_list:
+                    body = [st for st in n.body if not (isinstance(st, ast.Expr) and isinstance(st.value, ast.Constant))]
+                    if len(body) == 1 and isinstance(body[0], ast.Return) and isinstance(body[0].value, ast.Call):
+                        c = body[0].value
+                        return self.memo_bound(m2, c.func, _depth + 1)
+        return "unknown"
+
     def safe_subclass_helpers(self) -> set[str]:
         """Package functions that compute `issubclass(a, b)` of their two parameters and answer False when that raises
         TypeError (try/except or contextlib.suppress), whatever they are called: the non-raising subclass test."""
